@@ -129,22 +129,22 @@ theorem enter_spec (st : St S U α ρ) (i c : Nat) :
     (∀ q : Nat, ((enter st i c).motions[q]?).map core = (st.motions[q]?).map core) ∧
     (enter st i c).motions.size = st.motions.size ∧
     (enter st i c).nextCtl = st.nextCtl ∧ (enter st i c).lastGoal = st.lastGoal ∧
-    (enter st i c).isApprox = st.isApprox := by
+    (enter st i c).isApprox = st.isApprox ∧ (enter st i c).closest = st.closest := by
   unfold enter
   cases hm : st.motions[i]? with
-  | none => exact ⟨fun _ => rfl, rfl, rfl, rfl, rfl⟩
+  | none => exact ⟨fun _ => rfl, rfl, rfl, rfl, rfl, rfl⟩
   | some m =>
     have hlt : i < st.motions.size := (Array.getElem?_eq_some_iff.mp hm).1
     simp only
     split
-    · refine ⟨?_, by simp, rfl, rfl, rfl⟩
+    · refine ⟨?_, by simp, rfl, rfl, rfl, rfl⟩
       intro q
       show ((st.motions.setIfInBounds i { m with cell := c })[q]?).map core = _
       rw [Array.getElem?_setIfInBounds]
       by_cases e : i = q
       · rw [if_pos e, if_pos hlt, ← e, hm]; rfl
       · rw [if_neg e]
-    · refine ⟨?_, by simp, rfl, rfl, rfl⟩
+    · refine ⟨?_, by simp, rfl, rfl, rfl, rfl⟩
       intro q
       show (((st.motions.setIfInBounds i { m with cell := c }).setIfInBounds i _)[q]?).map core = _
       rw [Array.getElem?_setIfInBounds, Array.getElem?_setIfInBounds]
@@ -308,13 +308,15 @@ structure Keeps (st st' : St S U α ρ) : Prop where
   nextCtl : st'.nextCtl = st.nextCtl
   lastGoal : st'.lastGoal = st.lastGoal
   isApprox : st'.isApprox = st.isApprox
+  closest : st'.closest = st.closest
   stop : ∀ (q : Nat) (m : PMotion S U α), st.motions[q]? = some m →
     ∃ m', st'.motions[q]? = some m' ∧ m'.stop = m.stop
 
-theorem Keeps.refl (st : St S U α ρ) : Keeps st st := ⟨rfl, rfl, rfl, fun _ m h => ⟨m, h, rfl⟩⟩
+theorem Keeps.refl (st : St S U α ρ) : Keeps st st := ⟨rfl, rfl, rfl, rfl, fun _ m h => ⟨m, h, rfl⟩⟩
 
 theorem Keeps.trans {a b c : St S U α ρ} (h1 : Keeps a b) (h2 : Keeps b c) : Keeps a c :=
   ⟨h2.nextCtl.trans h1.nextCtl, h2.lastGoal.trans h1.lastGoal, h2.isApprox.trans h1.isApprox,
+    h2.closest.trans h1.closest,
     fun q m hm => by
       obtain ⟨m', a1, a2⟩ := h1.stop q m hm
       obtain ⟨m'', b1, b2⟩ := h2.stop q m' a1
@@ -333,8 +335,8 @@ theorem stop_of_coreEq (ms ms' : Array (PMotion S U α)) (q : Nat) (m : PMotion 
 
 theorem enter_good (P : Problem S U α ρ) (starts : List S) (st : St S U α ρ) (i c : Nat)
     (h : Good P starts st) : Good P starts (enter st i c) ∧ Keeps st (enter st i c) := by
-  obtain ⟨e1, _, e3, e4, e5⟩ := enter_spec st i c
-  refine ⟨?_, ⟨e3, e4, e5, ?_⟩⟩
+  obtain ⟨e1, _, e3, e4, e5, e6⟩ := enter_spec st i c
+  refine ⟨?_, ⟨e3, e4, e5, e6, ?_⟩⟩
   · unfold Good; rw [e3]; exact minv_coreEq P starts _ _ _ e1 h
   · intro q m hm
     obtain ⟨m', a, b⟩ := stop_of_coreEq _ _ q m (e1 q) hm
@@ -373,8 +375,8 @@ theorem scan_good (P : Problem S U α ρ) (starts : List S) (bsp i : Nat) :
             have hilt : i < st.motions.size := (Array.getElem?_eq_some_iff.mp hm).1
             -- the three stages of the split
             generalize hhead : ({ start := m.start, stop := prev, control := some u, ctl := m.ctl, dur := dn, priority := m.priority, parent := m.parent, cell := prevCell.getD 0, helem := none, isSplit := true } : PMotion S U α) = head
-            obtain ⟨e1, e2, e3, e4, e5⟩ := enter_spec { st with motions := st.motions.push head } st.motions.size (prevCell.getD 0)
-            generalize enter { st with motions := st.motions.push head } st.motions.size (prevCell.getD 0) = st2 at e1 e2 e3 e4 e5 ⊢
+            obtain ⟨e1, e2, e3, e4, e5, e6⟩ := enter_spec { st with motions := st.motions.push head } st.motions.size (prevCell.getD 0)
+            generalize enter { st with motions := st.motions.push head } st.motions.size (prevCell.getD 0) = st2 at e1 e2 e3 e4 e5 e6 ⊢
             have e1' : ∀ q : Nat, (st2.motions[q]?).map core = ((st.motions.push head)[q]?).map core := e1
             have hsplit := split_inv P starts st.motions
               (st2.motions.modify i fun mm => { mm with start := prev, dur := mm.dur - dn, parent := some st.motions.size })
@@ -396,7 +398,7 @@ theorem scan_good (P : Problem S U α ρ) (starts : List S) (bsp i : Nat) :
               show MInv P starts _ st2.nextCtl
               rw [e3]; exact hsplit.1
             have hK3 : Keeps st { st2 with motions := st2.motions.modify i fun mm => { mm with start := prev, dur := mm.dur - dn, parent := some st.motions.size } } :=
-              ⟨e3, e4, e5, fun q mq hq => by
+              ⟨e3, e4, e5, e6, fun q mq hq => by
                 obtain ⟨m', a, _, c, _⟩ := hsplit.2.keep q mq hq
                 exact ⟨m', a, c⟩⟩
             have := ih (cnt + 1) (0 + 1) (P.step prev u) (some cell) _ hG3 (by
@@ -443,7 +445,7 @@ theorem subdivide_good (P : Problem S U α ρ) (starts : List S) (st : St S U α
   unfold subdivide
   split
   · exact ⟨h, Keeps.refl st⟩
-  · exact ⟨h, ⟨rfl, rfl, rfl, fun _ m hm => ⟨m, hm, rfl⟩⟩⟩
+  · exact ⟨h, ⟨rfl, rfl, rfl, rfl, fun _ m hm => ⟨m, hm, rfl⟩⟩⟩
 
 theorem foldAdd_good (P : Problem S U α ρ) (starts : List S) (c : Nat) :
     ∀ (l : List Nat) (st : St S U α ρ), Good P starts st →
@@ -476,7 +478,8 @@ theorem sim_push (step : S → U → S) (ms : Array (PMotion S U α)) (x : PMoti
 /-- goal bookkeeping -/
 def GInv (P : Problem S U α ρ) (st : St S U α ρ) : Prop :=
   (∀ l, st.lastGoal = some l → ∃ m, st.motions[l]? = some m) ∧
-  (st.isApprox = false → ∃ l m, st.lastGoal = some l ∧ st.motions[l]? = some m ∧ (P.goal m.stop).1 = true)
+  (st.isApprox = false → ∃ l m, st.lastGoal = some l ∧ st.motions[l]? = some m ∧ (P.goal m.stop).1 = true ∧
+    st.closest = (P.goal m.stop).2)
 
 theorem ginv_keeps (P : Problem S U α ρ) (st st' : St S U α ρ) (hk : Keeps st st') (h : GInv P st) :
     GInv P st' := by
@@ -488,9 +491,9 @@ theorem ginv_keeps (P : Problem S U α ρ) (st st' : St S U α ρ) (hk : Keeps s
     exact ⟨m', a⟩
   · intro ha
     rw [hk.isApprox] at ha
-    obtain ⟨l, m, h1, h2, h3⟩ := h.2 ha
+    obtain ⟨l, m, h1, h2, h3, h4⟩ := h.2 ha
     obtain ⟨m', a, b⟩ := hk.stop l m h2
-    exact ⟨l, m', by rw [hk.lastGoal]; exact h1, a, by rw [b]; exact h3⟩
+    exact ⟨l, m', by rw [hk.lastGoal]; exact h1, a, by rw [b]; exact h3, by rw [b, hk.closest]; exact h4⟩
 
 def pdF (P : Problem S U α ρ) (st : St S U α ρ) (m : PMotion S U α) : Nat × ρ :=
   if m.dur > 1 then P.rngInt1 st.rng m.dur else (m.dur, st.rng)
@@ -559,16 +562,16 @@ theorem iter_eq (P : Problem S U α ρ) (st0 : St S U α ρ) (d : Draw S U) :
 theorem selSt_motions (st0 : St S U α ρ) (sel : Nat) (m0 : PMotion S U α) :
     (selSt st0 sel m0).motions = st0.motions.setIfInBounds sel (selM m0) ∧
     (selSt st0 sel m0).nextCtl = st0.nextCtl ∧ (selSt st0 sel m0).lastGoal = st0.lastGoal ∧
-    (selSt st0 sel m0).isApprox = st0.isApprox := by
+    (selSt st0 sel m0).isApprox = st0.isApprox ∧ (selSt st0 sel m0).closest = st0.closest := by
   unfold selSt
   simp only
-  split <;> exact ⟨rfl, rfl, rfl, rfl⟩
+  split <;> exact ⟨rfl, rfl, rfl, rfl, rfl⟩
 
 theorem selSt_good (P : Problem S U α ρ) (starts : List S) (st0 : St S U α ρ) (sel : Nat) (m0 : PMotion S U α)
     (hm0 : st0.motions[sel]? = some m0) (h : Good P starts st0) :
     Good P starts (selSt st0 sel m0) ∧ Keeps st0 (selSt st0 sel m0) ∧
       (selSt st0 sel m0).motions[sel]? = some (selM m0) := by
-  obtain ⟨e1, e2, e3, e4⟩ := selSt_motions st0 sel m0
+  obtain ⟨e1, e2, e3, e4, e5⟩ := selSt_motions st0 sel m0
   have hlt : sel < st0.motions.size := (Array.getElem?_eq_some_iff.mp hm0).1
   have hce : ∀ q : Nat, ((selSt st0 sel m0).motions[q]?).map core = (st0.motions[q]?).map core := by
     intro q
@@ -576,7 +579,7 @@ theorem selSt_good (P : Problem S U α ρ) (starts : List S) (st0 : St S U α ρ
     by_cases e : sel = q
     · rw [if_pos e, if_pos hlt, ← e, hm0]; rfl
     · rw [if_neg e]
-  refine ⟨?_, ⟨e2, e3, e4, ?_⟩, ?_⟩
+  refine ⟨?_, ⟨e2, e3, e4, e5, ?_⟩, ?_⟩
   · unfold Good; rw [e2]; exact minv_coreEq P starts _ _ _ hce h
   · intro q m hm
     obtain ⟨m', a, b⟩ := stop_of_coreEq _ _ q m (hce q) hm
@@ -616,22 +619,26 @@ theorem startF_onchain (P : Problem S U α ρ) (starts : List S) (ms : Array (PM
 
 theorem iterRest_good (P : Problem S U α ρ) (starts : List S) (st : St S U α ρ) (sel : Nat)
     (m : PMotion S U α) (start : S) (gb : Bool × ρ) (d : Draw S U)
-    (hG : Good P starts st) (hg : GInv P st) (ha : st.isApprox = true) (hm : st.motions[sel]? = some m)
+    (hG : Good P starts st) (hg : GInv P st)
+    (hcase : st.isApprox = true ∨
+      ∀ a b, (P.goal a).1 = true → (P.goal b).1 = false → ¬ ((P.goal b).2 < (P.goal a).2))
+    (hm : st.motions[sel]? = some m)
     (hstart : OnChain P.step st.motions sel start ∧ P.valid start = true) :
     Good P starts (iterRest P st sel start gb d).1 ∧ GInv P (iterRest P st sel start gb d).1 ∧
-      ((iterRest P st sel start gb d).2 = .cont → (iterRest P st sel start gb d).1.isApprox = true) := by
+      (st.isApprox = true → (iterRest P st sel start gb d).2 = .cont →
+        (iterRest P st sel start gb d).1.isApprox = true) := by
   unfold iterRest
   simp only
   generalize (if gb.1 = true then P.goalSample else d.sample) = rnd
   have hG1 : Good P starts { st with rng := gb.2 } := hG
   have hg1 : GInv P { st with rng := gb.2 } := hg
   cases hsamp : sampleTo P.step P.valid P.dist (fun a b => decide (a < b)) start rnd d.ctl with
-  | none => exact ⟨hG1, hg1, fun _ => ha⟩
+  | none => exact ⟨hG1, hg1, fun ha _ => ha⟩
   | some x =>
     obtain ⟨u, dur, reached⟩ := x
     simp only
     by_cases hmin : dur < P.minSteps
-    · rw [if_pos hmin]; exact ⟨hG1, hg1, fun _ => ha⟩
+    · rw [if_pos hmin]; exact ⟨hG1, hg1, fun ha _ => ha⟩
     · rw [if_neg hmin]
       obtain ⟨k1, k2, _⟩ := sampleTo_ok _ _ _ _ _ _ _ _ hsamp
       simp only at k1 k2
@@ -682,62 +689,75 @@ theorem iterRest_good (P : Problem S U α ρ) (starts : List S) (st : St S U α 
         show (st.motions.push nm)[st.motions.size]? = some nm
         rw [Array.getElem?_push, if_pos rfl])
       have hstop : mn.stop = reached := by rw [hmn2, ← hnm]
-      have hex3 : ∀ l, st.lastGoal = some l → ∃ m', st3.motions[l]? = some m' := by
-        intro l hl
-        obtain ⟨ml, hml⟩ := hg.1 l hl
-        obtain ⟨m', a, _⟩ := hK3.stop l ml (hK2 l ml hml)
-        exact ⟨m', a⟩
-      have ha3 : st3.isApprox = true := by rw [hK3.isApprox]; exact ha
-      have hl3 : st3.lastGoal = st.lastGoal := hK3.lastGoal
+      have hg2 : GInv P { st with rng := gb.2, motions := st.motions.push nm, iteration := st.iteration + 1, nextCtl := st.nextCtl + 1 } := by
+        refine ⟨?_, ?_⟩
+        · intro l hl
+          obtain ⟨ml, hml⟩ := hg.1 l hl
+          exact ⟨ml, hK2 l ml hml⟩
+        · intro hap
+          obtain ⟨l, ml, a1, a2, a3, a4⟩ := hg.2 hap
+          exact ⟨l, ml, a1, hK2 l ml a2, a3, a4⟩
+      have hg3 : GInv P st3 := ginv_keeps P _ _ hK3 hg2
+      have ha3 : st3.isApprox = st.isApprox := hK3.isApprox
       by_cases hgoal : (P.goal reached).1 = true
       · rw [if_pos hgoal]
-        refine ⟨hG3, ⟨?_, ?_⟩, fun h => by cases h⟩
+        refine ⟨hG3, ⟨?_, ?_⟩, fun _ h => by cases h⟩
         · intro l hl
           cases Option.some.inj hl
           exact ⟨mn, hmn1⟩
         · intro _
-          exact ⟨_, mn, rfl, hmn1, by rw [hstop]; exact hgoal⟩
+          exact ⟨_, mn, rfl, hmn1, by rw [hstop]; exact hgoal, by rw [hstop]⟩
       · rw [if_neg hgoal]
+        have hgf : (P.goal reached).1 = false := by simpa using hgoal
         -- st4
         have h4 : ∀ st4 : St S U α ρ, st4 = (if (P.goal reached).2 < st3.closest then { st3 with closest := (P.goal reached).2, lastGoal := some st.motions.size } else st3) →
-            Good P starts st4 ∧ GInv P st4 ∧ st4.isApprox = true := by
+            Good P starts st4 ∧ GInv P st4 ∧ st4.isApprox = st.isApprox := by
           intro st4 e
           by_cases hc : (P.goal reached).2 < st3.closest
           · rw [if_pos hc] at e
             rw [e]
-            refine ⟨hG3, ⟨?_, fun h => by rw [show ({ st3 with closest := (P.goal reached).2, lastGoal := some st.motions.size } : St S U α ρ).isApprox = st3.isApprox from rfl, ha3] at h; cases h⟩, ha3⟩
+            have hap3 : st3.isApprox = true := by
+              cases hap : st3.isApprox with
+              | true => rfl
+              | false =>
+                exfalso
+                obtain ⟨l, ml, _, _, b3, b4⟩ := hg3.2 hap
+                rw [b4] at hc
+                rcases hcase with hc1 | hc2
+                · rw [ha3, hc1] at hap; cases hap
+                · exact hc2 _ _ b3 hgf hc
+            refine ⟨hG3, ⟨?_, fun h => by rw [show ({ st3 with closest := (P.goal reached).2, lastGoal := some st.motions.size } : St S U α ρ).isApprox = st3.isApprox from rfl, hap3] at h; cases h⟩, ha3⟩
             intro l hl
             cases Option.some.inj hl
             exact ⟨mn, hmn1⟩
           · rw [if_neg hc] at e
             rw [e]
-            refine ⟨hG3, ⟨?_, fun h => by rw [ha3] at h; cases h⟩, ha3⟩
-            intro l hl
-            rw [hl3] at hl
-            exact hex3 l hl
+            exact ⟨hG3, hg3, ha3⟩
         generalize (if (P.goal reached).2 < st3.closest then ({ st3 with closest := (P.goal reached).2, lastGoal := some st.motions.size } : St S U α ρ) else st3) = st4 at h4 ⊢
         obtain ⟨hG4, hg4, ha4⟩ := h4 st4 rfl
         cases hsel4 : st4.motions[sel]? with
-        | none => exact ⟨hG4, hg4, fun h => by cases h⟩
+        | none => exact ⟨hG4, hg4, fun _ h => by cases h⟩
         | some msel =>
           simp only
           have hsd := subdivide_good P starts st4 msel.cell hG4
           have hf := foldAdd_good P starts msel.cell (subdivide P st4 msel.cell).2 _ hsd.1
           have hK := hsd.2.trans hf.2
-          exact ⟨hf.1, ginv_keeps P _ _ hK hg4, fun _ => by rw [hK.isApprox]; exact ha4⟩
+          exact ⟨hf.1, ginv_keeps P _ _ hK hg4, fun ha _ => by rw [hK.isApprox, ha4]; exact ha⟩
 
 theorem iter_good (P : Problem S U α ρ) (starts : List S)
     (hrng : ∀ g hi, 1 ≤ hi → 1 ≤ (P.rngInt1 g hi).1 ∧ (P.rngInt1 g hi).1 ≤ hi) (st0 : St S U α ρ) (d : Draw S U)
-    (hG : Good P starts st0) (hg : GInv P st0) (ha : st0.isApprox = true) :
+    (hG : Good P starts st0) (hg : GInv P st0)
+    (hcase : st0.isApprox = true ∨
+      ∀ a b, (P.goal a).1 = true → (P.goal b).1 = false → ¬ ((P.goal b).2 < (P.goal a).2)) :
     Good P starts (iter P st0 d).1 ∧ GInv P (iter P st0 d).1 ∧
-      ((iter P st0 d).2 = .cont → (iter P st0 d).1.isApprox = true) := by
+      (st0.isApprox = true → (iter P st0 d).2 = .cont → (iter P st0 d).1.isApprox = true) := by
   rw [iter_eq]
   cases st0.heap.top with
-  | none => exact ⟨hG, hg, fun h => by cases h⟩
+  | none => exact ⟨hG, hg, fun _ h => by cases h⟩
   | some e =>
     simp only
     cases hm0 : st0.motions[e.key.2]? with
-    | none => exact ⟨hG, hg, fun h => by cases h⟩
+    | none => exact ⟨hG, hg, fun _ h => by cases h⟩
     | some m0 =>
       simp only
       obtain ⟨hGs, hKs, hms⟩ := selSt_good P starts st0 e.key.2 m0 hm0 hG
@@ -751,12 +771,17 @@ theorem iter_good (P : Problem S U α ρ) (starts : List S)
           exact ⟨this.2, Or.inl this.1⟩
         · exact ⟨Nat.le_refl _, Or.inr rfl⟩
       have hst := startF_onchain P starts _ e.key.2 (selM m0) hms hseg _ hk
-      exact iterRest_good P starts _ e.key.2 (selM m0) _ _ d hGs (ginv_keeps P _ _ hKs hg)
-        (by rw [hKs.isApprox]; exact ha) hms hst
+      have := iterRest_good P starts (selSt st0 e.key.2 m0) e.key.2 (selM m0)
+        (startF P (selM m0) (pdF P (selSt st0 e.key.2 m0) (selM m0)).1)
+        (gbF P (pdF P (selSt st0 e.key.2 m0) (selM m0)).2) d hGs (ginv_keeps P _ _ hKs hg)
+        (by rw [hKs.isApprox]; exact hcase) hms hst
+      exact ⟨this.1, this.2.1, fun ha => this.2.2 (by rw [hKs.isApprox]; exact ha)⟩
 
 theorem run_good (P : Problem S U α ρ) (starts : List S)
     (hrng : ∀ g hi, 1 ≤ hi → 1 ≤ (P.rngInt1 g hi).1 ∧ (P.rngInt1 g hi).1 ≤ hi) :
-    ∀ (ds : List (Draw S U)) (st : St S U α ρ), Good P starts st → GInv P st → st.isApprox = true →
+    ∀ (ds : List (Draw S U)) (st : St S U α ρ), Good P starts st → GInv P st →
+      (st.isApprox = true ∨
+        ∀ a b, (P.goal a).1 = true → (P.goal b).1 = false → ¬ ((P.goal b).2 < (P.goal a).2)) →
       Good P starts (run P st ds) ∧ GInv P (run P st ds) := by
   intro ds
   induction ds with
@@ -768,7 +793,10 @@ theorem run_good (P : Problem S U α ρ) (starts : List S)
     split
     · rename_i st' heq
       rw [heq] at hI
-      exact ih st' hI.1 hI.2.1 (hI.2.2 rfl)
+      refine ih st' hI.1 hI.2.1 ?_
+      rcases h3 with h3 | h3
+      · exact Or.inl (hI.2.2 h3 rfl)
+      · exact Or.inr h3
     · rename_i st' _ heq
       rw [heq] at hI
       exact ⟨hI.1, hI.2.1⟩
@@ -840,7 +868,7 @@ theorem solve_good (P : Problem S U α ρ) (hrng : ∀ g hi, 1 ≤ hi → 1 ≤ 
     (g : ρ) (starts : List S) (draws : List (Draw S U)) :
     Good P starts (solve P g starts draws).final ∧ GInv P (solve P g starts draws).final := by
   obtain ⟨h1, h2, h3, _⟩ := init_good P g starts
-  have h := run_good P starts hrng draws _ h1 h2 h3
+  have h := run_good P starts hrng draws _ h1 h2 (Or.inl h3)
   unfold solve
   simp only
   split
@@ -1469,5 +1497,166 @@ theorem solve_path (P : Problem S U α ρ) (g : ρ) (starts : List S) (draws : L
     · rename_i l hl
       simp only [hl]
       exact ⟨l, rfl, h⟩
+
+/-! ## a later `solve()` on the same planner state -/
+
+theorem segOK_mono (P : Problem S U α ρ) (starts starts' : List S) (hsub : ∀ s ∈ starts, s ∈ starts')
+    (ms : Array (PMotion S U α)) (k : Core S U) (h : SegOK P starts ms k) : SegOK P starts' ms k := by
+  rcases h with ⟨a, b, c, d, e, f, g⟩ | h
+  · exact Or.inl ⟨a, b, c, d, hsub _ e, f, g⟩
+  · exact Or.inr h
+
+theorem good_mono (P : Problem S U α ρ) (starts starts' : List S) (hsub : ∀ s ∈ starts, s ∈ starts')
+    (st : St S U α ρ) (h : Good P starts st) : Good P starts' st :=
+  ⟨fun q m hm => segOK_mono P starts starts' hsub _ _ (h.seg q m hm), h.fresh⟩
+
+theorem addStart_good (P : Problem S U α ρ) (starts : List S) (st : St S U α ρ) (s : S) (hs : s ∈ starts)
+    (hv : P.valid s = true) (h : Good P starts st) : Good P starts (addStart P st s) ∧ Keeps st (addStart P st s) := by
+  unfold addStart
+  simp only
+  generalize hroot : ({ start := s, stop := s, control := none, ctl := none, dur := 0, priority := Num.ofNat 0, parent := none, cell := stab st.cells (P.project s) st.cells.size 0, helem := some st.heap.next, isSplit := false } : PMotion S U α) = rt
+  have hsim := sim_push P.step st.motions rt
+  refine ⟨⟨?_, ?_⟩, ⟨rfl, rfl, rfl, rfl, ?_⟩⟩
+  · intro q mq hq
+    have hq' : (st.motions.push rt)[q]? = some mq := hq
+    rw [Array.getElem?_push] at hq'
+    by_cases e : q = st.motions.size
+    · rw [if_pos e] at hq'
+      cases Option.some.inj hq'
+      subst hroot
+      exact Or.inl ⟨rfl, rfl, rfl, rfl, hs, hv, rfl⟩
+    · rw [if_neg e] at hq'
+      exact segOK_sim P starts _ _ _ hsim (h.seg q mq hq')
+  · intro q mq c hq hc
+    have hq' : (st.motions.push rt)[q]? = some mq := hq
+    rw [Array.getElem?_push] at hq'
+    by_cases e : q = st.motions.size
+    · rw [if_pos e] at hq'
+      cases Option.some.inj hq'
+      subst hroot
+      cases hc
+    · rw [if_neg e] at hq'
+      exact h.fresh q mq c hq' hc
+  · intro q mq hq
+    exact ⟨mq, by
+      show (st.motions.push rt)[q]? = some mq
+      rw [Array.getElem?_push, if_neg (by have := (Array.getElem?_eq_some_iff.mp hq).1; omega)]; exact hq, rfl⟩
+
+theorem foldStart_good (P : Problem S U α ρ) (starts : List S) :
+    ∀ (l : List S) (st : St S U α ρ), (∀ s ∈ l, s ∈ starts ∧ P.valid s = true) → Good P starts st →
+      Good P starts (l.foldl (addStart P) st) ∧ Keeps st (l.foldl (addStart P) st) := by
+  intro l
+  induction l with
+  | nil => intro st _ h; exact ⟨h, Keeps.refl st⟩
+  | cons s l ih =>
+    intro st hl h
+    rw [List.foldl_cons]
+    have hs := hl s (List.mem_cons_self ..)
+    have h1 := addStart_good P starts st s hs.1 hs.2 h
+    have h2 := ih _ (fun x hx => hl x (List.mem_cons_of_mem _ hx)) h1.1
+    exact ⟨h2.1, h1.2.trans h2.2⟩
+
+/-- the state the fall-through of `resume` starts its loop from satisfies the goal invariant: the flag
+recomputed by `headFlags` re-establishes "`isApprox = false` ⇒ goal at `lastGoal`" -/
+theorem headFlags_ginv (P : Problem S U α ρ) (st : St S U α ρ)
+    (hl : ∀ l, st.lastGoal = some l → ∃ m, st.motions[l]? = some m) :
+    GInv P { st with isApprox := (headFlags P st).1, closest := (headFlags P st).2 } := by
+  refine ⟨hl, ?_⟩
+  intro hap
+  have hap : (headFlags P st).1 = false := hap
+  show ∃ l m, st.lastGoal = some l ∧ st.motions[l]? = some m ∧ (P.goal m.stop).1 = true ∧
+    (headFlags P st).2 = (P.goal m.stop).2
+  unfold headFlags at hap ⊢
+  cases hlg : st.lastGoal with
+  | none => rw [hlg] at hap; cases hap
+  | some l =>
+    rw [hlg] at hap
+    simp only at hap ⊢
+    cases hm : st.motions[l]? with
+    | none => rw [hm] at hap; cases hap
+    | some m =>
+      rw [hm] at hap
+      simp only at hap ⊢
+      exact ⟨l, m, rfl, hm, by simpa using hap, rfl⟩
+
+theorem resume_good (P : Problem S U α ρ) (starts : List S)
+    (hrng : ∀ g hi, 1 ≤ hi → 1 ≤ (P.rngInt1 g hi).1 ∧ (P.rngInt1 g hi).1 ≤ hi)
+    (hgoal : ∀ a b, (P.goal a).1 = true → (P.goal b).1 = false → ¬ ((P.goal b).2 < (P.goal a).2))
+    (st : St S U α ρ) (hG : Good P starts st) (hl : ∀ l, st.lastGoal = some l → ∃ m, st.motions[l]? = some m)
+    (flag : Bool) (newStarts : List S) (draws : List (Draw S U)) :
+    Good P (starts ++ newStarts) (resume P st flag newStarts draws).final ∧
+    (∀ l, (resume P st flag newStarts draws).final.lastGoal = some l →
+      ∃ m, (resume P st flag newStarts draws).final.motions[l]? = some m) ∧
+    ((resume P st flag newStarts draws).status = .exact →
+      ∃ l m, (resume P st flag newStarts draws).final.lastGoal = some l ∧
+        (resume P st flag newStarts draws).final.motions[l]? = some m ∧ (P.goal m.stop).1 = true) ∧
+    (∀ p, (resume P st flag newStarts draws).path = some p →
+      ∃ l, (resume P st flag newStarts draws).final.lastGoal = some l ∧
+        assemble P (resume P st flag newStarts draws).final.motions l = some p) := by
+  have hG' : Good P (starts ++ newStarts) st := good_mono P starts _ (fun s hs => List.mem_append_left _ hs) st hG
+  have hg0 := headFlags_ginv P st hl
+  unfold resume
+  simp only
+  by_cases hc : (st.lastGoal.isSome && !(headFlags P st).1 && flag) = true
+  · rw [if_pos hc]
+    refine ⟨hG', hl, fun _ => ?_, (fun p hp => by cases hp)⟩
+    have hf : (headFlags P st).1 = false := by
+      simp only [Bool.and_eq_true, Bool.not_eq_eq_eq_not, Bool.not_true] at hc; exact hc.1.2
+    obtain ⟨l, m, a, b, c, _⟩ := hg0.2 hf
+    exact ⟨l, m, a, b, c⟩
+  · rw [if_neg hc]
+    have hf := foldStart_good P (starts ++ newStarts) (newStarts.filter P.valid)
+      { st with isApprox := (headFlags P st).1, closest := (headFlags P st).2 }
+      (fun s hs => ⟨List.mem_append_right _ (List.mem_filter.mp hs).1, (List.mem_filter.mp hs).2⟩) hG'
+    have hg1 := ginv_keeps P _ _ hf.2 hg0
+    have hr := run_good P (starts ++ newStarts) hrng draws _ hf.1 hg1 (Or.inr hgoal)
+    split
+    · exact ⟨hf.1, hg1.1, (fun h => by cases h), (fun p hp => by cases hp)⟩
+    · split
+      · exact ⟨hr.1, hr.2.1, (fun h => by cases h), (fun p hp => by cases hp)⟩
+      · rename_i l hlg
+        refine ⟨hr.1, hr.2.1, ?_, fun p hp => ⟨l, hlg, hp⟩⟩
+        intro hst
+        have hap : (run P ((newStarts.filter P.valid).foldl (addStart P) { st with isApprox := (headFlags P st).1, closest := (headFlags P st).2 }) draws).isApprox = false := by
+          cases hap : (run P ((newStarts.filter P.valid).foldl (addStart P) { st with isApprox := (headFlags P st).1, closest := (headFlags P st).2 }) draws).isApprox with
+          | false => rfl
+          | true => rw [hap] at hst; cases hst
+        obtain ⟨l', m, a, b, c, _⟩ := hr.2.2 hap
+        exact ⟨l', m, a, b, c⟩
+
+/-- states reachable by `solve` followed by any finite number of later `solve()` calls; the list is the
+set of start states handed out so far -/
+inductive Reach (P : Problem S U α ρ) : List S → St S U α ρ → Prop
+  | first (g : ρ) (starts : List S) (draws : List (Draw S U)) : Reach P starts (solve P g starts draws).final
+  | again {starts : List S} {st : St S U α ρ} (flag : Bool) (newStarts : List S) (draws : List (Draw S U)) :
+      Reach P starts st → Reach P (starts ++ newStarts) (resume P st flag newStarts draws).final
+
+theorem reach_good (P : Problem S U α ρ)
+    (hrng : ∀ g hi, 1 ≤ hi → 1 ≤ (P.rngInt1 g hi).1 ∧ (P.rngInt1 g hi).1 ≤ hi)
+    (hgoal : ∀ a b, (P.goal a).1 = true → (P.goal b).1 = false → ¬ ((P.goal b).2 < (P.goal a).2))
+    (starts : List S) (st : St S U α ρ) (h : Reach P starts st) :
+    Good P starts st ∧ ∀ l, st.lastGoal = some l → ∃ m, st.motions[l]? = some m := by
+  induction h with
+  | first g starts draws =>
+    have := solve_good P hrng g starts draws
+    exact ⟨this.1, this.2.1⟩
+  | again flag newStarts draws _ ih =>
+    have := resume_good P _ hrng hgoal _ ih.1 ih.2 flag newStarts draws
+    exact ⟨this.1, this.2.1⟩
+
+/-- the early return and the re-publication after the problem definition was cleared -/
+theorem resume_early (P : Problem S U α ρ) (st : St S U α ρ) (l : Nat) (m : PMotion S U α)
+    (hl : st.lastGoal = some l) (hm : st.motions[l]? = some m) (hg : (P.goal m.stop).1 = true)
+    (newStarts : List S) (draws : List (Draw S U)) :
+    ((resume P st true newStarts draws).path = none ∧ (resume P st true newStarts draws).status = .exact ∧
+      (resume P st true newStarts draws).final = st) ∧
+    ((resume P st false [] []).path = assemble P st.motions l ∧ (resume P st false [] []).status = .exact) := by
+  have hf : headFlags P st = (false, (P.goal m.stop).2) := by
+    unfold headFlags; rw [hl]; simp only; rw [hm]; simp only [hg, Bool.not_true]
+  have hsz : st.motions.size ≠ 0 := by
+    have := (Array.getElem?_eq_some_iff.mp hm).1; omega
+  constructor
+  · simp [resume, hf, hl]
+  · simp [resume, hf, hl, run, hsz]
 
 end OmplModel.CPDST
